@@ -284,3 +284,168 @@ def attwild_cases(rng, thorough):
         cases.append({"kind": "attwildcard-" + shape, "request": req, "n": len(atts), "strict_penalty": [False] * len(atts),
                       "attwild": True, "words": [[(u, 0)] for u, _ in atts], "info": {"expr": expr}})
     return cases
+
+
+# ------------------------------------------------------------------------------------------------
+# 4. substitution groups through every XMLContentModel implementation (validateContentSpecial fallback)
+# ------------------------------------------------------------------------------------------------
+H1, S1, T1, H2, S2, XX, BAD = (2, 21), (2, 22), (2, 23), (2, 24), (2, 25), (2, 26), (2, 29)
+for _q, _n in ((H1, "h1"), (S1, "s1"), (T1, "t1"), (H2, "h2"), (S2, "s2"), (XX, "x"), (BAD, "bad")):
+    G.LOCAL[_q[1]] = _n
+
+# (name, expected class, expected class when mixed, rendered particle, model content)
+_ref = lambda n, o="": '<xs:element ref="t:%s"%s/>' % (n, o)
+SG_SHAPES = [
+    ("leaf", "Simple", "DFA", "<xs:sequence>%s</xs:sequence>" % _ref("h1"), "P S 1 1 1 E 1 1 2 21"),
+    ("leaf?", "Simple", "DFA", "<xs:sequence>%s</xs:sequence>" % _ref("h1", ' minOccurs="0"'), "P S 1 1 1 E 0 1 2 21"),
+    ("leaf*", "Simple", "DFA", "<xs:sequence>%s</xs:sequence>" % _ref("h1", ' minOccurs="0" maxOccurs="unbounded"'), "P S 1 1 1 E 0 -1 2 21"),
+    ("leaf+", "Simple", "DFA", "<xs:sequence>%s</xs:sequence>" % _ref("h1", ' maxOccurs="unbounded"'), "P S 1 1 1 E 1 -1 2 21"),
+    ("choice2", "Simple", "DFA", "<xs:choice>%s%s</xs:choice>" % (_ref("h1"), _ref("h2")), "P C 1 1 2 E 1 1 2 21 E 1 1 2 24"),
+    ("choice2-rev", "Simple", "DFA", "<xs:choice>%s%s</xs:choice>" % (_ref("h2"), _ref("h1")), "P C 1 1 2 E 1 1 2 24 E 1 1 2 21"),
+    ("seq2", "Simple", "DFA", "<xs:sequence>%s%s</xs:sequence>" % (_ref("h1"), _ref("h2")), "P S 1 1 2 E 1 1 2 21 E 1 1 2 24"),
+    ("seq2-rev", "Simple", "DFA", "<xs:sequence>%s%s</xs:sequence>" % (_ref("h2"), _ref("h1")), "P S 1 1 2 E 1 1 2 24 E 1 1 2 21"),
+    ("all2", "All", "All", "<xs:all>%s%s</xs:all>" % (_ref("h1"), _ref("h2")), "A 0 2 2 21 1 2 24 1"),
+    ("all2-opt", "All", "All", '<xs:all minOccurs="0">%s%s</xs:all>' % (_ref("h1", ' minOccurs="0"'), _ref("h2")), "A 1 2 2 21 0 2 24 1"),
+    ("choice3", "DFA", "DFA", "<xs:choice>%s%s%s</xs:choice>" % (_ref("h1"), _ref("h2"), _ref("x")),
+     "P C 1 1 3 E 1 1 2 21 E 1 1 2 24 E 1 1 2 26"),
+    ("seq3", "DFA", "DFA", "<xs:sequence>%s%s%s</xs:sequence>" % (_ref("h1"), _ref("h2"), _ref("x", ' minOccurs="0"')),
+     "P S 1 1 3 E 1 1 2 21 E 1 1 2 24 E 0 1 2 26"),
+    ("counted", "DFA", "DFA", "<xs:sequence>%s%s</xs:sequence>" % (_ref("h1", ' minOccurs="2" maxOccurs="3"'), _ref("h2")),
+     "P S 1 1 2 E 2 3 2 21 E 1 1 2 24"),
+    ("choice2-rep", "DFA", "DFA", '<xs:choice maxOccurs="2">%s%s</xs:choice>' % (_ref("h1"), _ref("h2")),
+     "P C 1 2 2 E 1 1 2 21 E 1 1 2 24"),
+    ("seq-star", "DFA", "DFA", "<xs:sequence>%s%s</xs:sequence>" % (_ref("h2"), _ref("h1", ' minOccurs="0" maxOccurs="unbounded"')),
+     "P S 1 1 2 E 1 1 2 24 E 0 -1 2 21"),
+    ("mixed-only-text", "Mixed", "Mixed", "", "P S 1 1 0"),
+]
+
+
+def subst_cm_cases(rng, thorough):
+    cases = []
+    words = G.exhaustive([H1, S1, T1, H2, S2, XX], 3 if not thorough else 4, 2000)
+    cfgs = [dict(), dict(abstract_h1=True), dict(block_h1=True), dict(abstract_s1=True), dict(mixed=True),
+            dict(mixed=True, abstract_h1=True), dict(block_h2=True, abstract_s1=True)]
+    for name, cls, cls_mixed, body, content in SG_SHAPES:
+        for cfg in cfgs:
+            mixed = cfg.get("mixed", False)
+            if name == "mixed-only-text" and not mixed:
+                continue
+            allowed1 = set() if cfg.get("abstract_h1") else {H1}
+            if not cfg.get("block_h1"):
+                allowed1 |= {T1} | (set() if cfg.get("abstract_s1") else {S1})
+            allowed2 = {H2} | (set() if cfg.get("block_h2") else {S2})
+
+            def canon(q):
+                if q in allowed1:
+                    return H1
+                if q in allowed2:
+                    return H2
+                if q in (H1, H2):
+                    return BAD       # an abstract head used directly / never reached otherwise
+                return q
+            gl = lambda n, extra="": '<xs:element name="%s" type="xs:string"%s/>' % (n, extra)
+            doc = ('<xs:schema xmlns:xs="%s" xmlns:t="urn:t" targetNamespace="urn:t" elementFormDefault="qualified">'
+                   '<xs:element name="r"><xs:complexType%s>%s</xs:complexType></xs:element>%s%s%s%s%s%s</xs:schema>'
+                   % (G.XSD, ' mixed="true"' if mixed else "", body,
+                      gl("h1", (' abstract="true"' if cfg.get("abstract_h1") else "") + (' block="substitution"' if cfg.get("block_h1") else "")),
+                      gl("s1", ' substitutionGroup="t:h1"' + (' abstract="true"' if cfg.get("abstract_s1") else "")),
+                      gl("t1", ' substitutionGroup="t:s1"'),
+                      gl("h2", ' block="substitution"' if cfg.get("block_h2") else ""),
+                      gl("s2", ' substitutionGroup="t:h2"'), gl("x")))
+            ws = words if (thorough or name in ("choice2", "choice2-rev", "seq2", "all2", "choice3")) else \
+                [w for w in words if len(w) <= 2] + rng.sample([w for w in words if len(w) == 3], 60)
+            # an abstract member used directly is invalid whatever the content model says
+            forced = [bool(cfg.get("abstract_s1") and S1 in w) or bool(cfg.get("abstract_h1") and H1 in w) for w in ws]
+            insts = [G.instance(w, text_between=("txt" if mixed and i % 2 == 0 else None)) if w else
+                     (G.instance([]).replace("></t:r>", ">txt</t:r>") if mixed and i % 2 == 0 else G.instance([]))
+                     for i, w in enumerate(ws)]
+            cw = [[canon(q) for q in w] for w in ws]
+            model = "cm %s ; %s" % (content, " ; ".join(",".join(G.qtext(q) for q in w) or "-" for w in cw))
+            req = G.request(model, [("main.xsd", doc)], "main.xsd", insts)
+            cases.append({"kind": "substcm-" + name, "request": req, "n": len(ws), "strict_penalty": forced,
+                          "words": [[list(q) for q in w] for w in ws], "expect_cm": cls_mixed if mixed else cls,
+                          "info": dict(cfg, shape=name)})
+    return cases
+
+
+# ------------------------------------------------------------------------------------------------
+# 5. Derivation Valid (Restriction, Complex): attribute uses and attribute wildcard of a restriction (schema-level)
+# ------------------------------------------------------------------------------------------------
+ATT_Q = {"a": (1, 1), "b": (1, 2), "c": (1, 3), "d": (1, 4), "u:ga": (3, 9)}
+TYPES = {0: "xs:string", 1: "xs:token", 2: "xs:int"}
+
+
+def _render_att(name, use, vc, val, ty):
+    u = {"o": "optional", "r": "required", "p": "prohibited"}[use]
+    v = "" if vc == "n" else (' default="%s"' % val if vc == "d" else ' fixed="%s"' % val)
+    if name == "u:ga":
+        return '<xs:attribute ref="u:ga" use="%s"%s/>' % (u, v)
+    return '<xs:attribute name="%s" type="%s" use="%s"%s/>' % (name, TYPES[ty], u, v)
+
+
+def _model_table(decls, wild):
+    w = "none" if wild is None else _wl(wild)[2:]
+    return "%d %s %s" % (len(decls), " ".join("%d %d %s %s %s %d" % (ATT_Q[n][0], ATT_Q[n][1], use, vc, G.hx(val), ty)
+                                              for n, use, vc, val, ty in decls), w)
+
+
+def attderiv_cases(rng, thorough):
+    wl = [None, None] + [w for w in WLEAVES]
+    cases = []
+
+    def one(base, bw, decls, dw, tag):
+        battrs = "".join(_render_att(*d) for d in base) + ("" if bw is None else _anyattr(bw[1]))
+        dattrs = "".join(_render_att(*d) for d in decls) + ("" if dw is None else _anyattr(dw[1]))
+        doc = ('<xs:schema xmlns:xs="%s" xmlns:t="urn:t" xmlns:u="urn:u" targetNamespace="urn:t" elementFormDefault="qualified">'
+               '<xs:import namespace="urn:u" schemaLocation="u.xsd"/><xs:element name="r" type="t:D"/>'
+               '<xs:complexType name="B">%s</xs:complexType>'
+               '<xs:complexType name="D"><xs:complexContent><xs:restriction base="t:B">%s</xs:restriction></xs:complexContent>'
+               '</xs:complexType></xs:schema>' % (G.XSD, battrs, dattrs))
+        model = "ad %s ; %s" % (_model_table(base, bw[0] if bw else None), _model_table(decls, dw[0] if dw else None))
+        req = G.request(model, [("main.xsd", doc), ("u.xsd", G.U_XSD)], "main.xsd", [])
+        cases.append({"kind": "attderivation-" + tag, "request": req, "n": 0, "schema_verdict": True,
+                      "info": {"base": base, "base_wild": bw[1] if bw else None, "decls": decls,
+                               "derived_wild": dw[1] if dw else None}})
+
+    # the systematic table: one base attribute, every (base use, vc) x (derived use, vc, type)
+    for buse, bvc in (("o", "n"), ("o", "d"), ("o", "f"), ("r", "n"), ("r", "f")):
+        for duse, dvc, dval in (("o", "n", ""), ("o", "d", "7"), ("o", "f", "7"), ("o", "f", "8"), ("r", "n", ""), ("r", "f", "7"),
+                                ("r", "f", "8"), ("p", "n", "")):
+            for dty in (0, 1, 2):
+                if dty != 0 and not (thorough or (duse, dvc) in (("o", "n"), ("r", "n"), ("p", "n"))):
+                    continue
+                one([("a", buse, bvc, "7" if bvc != "n" else "", 0)], None, [("a", duse, dvc, dval, dty)], None, "use-table")
+    # wildcard narrowing / widening: every pair, and new attributes against the base wildcard
+    for bw in [None] + WLEAVES:
+        for dw in [None] + WLEAVES:
+            one([("a", "o", "n", "", 0)], bw, [], dw, "wildcard-pair")
+        for newatt in ("d", "u:ga"):
+            one([("a", "o", "n", "", 0)], bw, [(newatt, "o", "n", "", 0)], None, "new-attribute")
+        one([("a", "o", "n", "", 0)], bw, [("d", "p", "n", "", 0)], None, "stray-prohibited")
+    # random tables
+    n = 60 if not thorough else 1500
+    for _ in range(n):
+        base = []
+        for nm in ("a", "b", "c"):
+            if rng.random() < 0.8:
+                use = rng.choice("or")
+                vc = rng.choice("ndf" if use == "o" else "nf")
+                base.append((nm, use, vc, "7" if vc != "n" else "", rng.choice([0, 0, 1])))
+        decls = []
+        for nm, use, vc, val, ty in base:
+            if rng.random() < 0.55:
+                continue
+            duse = rng.choice("orrp")
+            if duse == "p":
+                decls.append((nm, "p", "n", "", ty))
+                continue
+            dvc = rng.choice("ndf" if duse == "o" else "nf")
+            dval = "" if dvc == "n" else rng.choice(["7", "7", "8"])
+            dty = rng.choice([ty, ty, 1, 2]) if ty == 0 else rng.choice([ty, ty, 0])
+            decls.append((nm, duse, dvc, dval, dty))
+        if rng.random() < 0.25:
+            decls.append((rng.choice(["d", "u:ga"]), rng.choice("oop"), "n", "", 0))
+        bw = rng.choice(wl)
+        dw = rng.choice([None, None, bw, rng.choice(wl)])
+        one(base, bw, decls, dw, "random")
+    return cases
